@@ -67,6 +67,26 @@ def check(P, R):
     ytests = [n for n in ri.cfg.nodes if n.kind == 'test' and 'DATA' in payload_slots(n.ast) and any(
         y in ri.cfg.reachable_from(T.succ_by_label(n, 'true')) for y in T.yield_nodes(ri.cfg))]
     R.require(ytests, '_routes_iter: yield test not found')
+    # a prefix node is folded into its child only when that child is its only one: on the path to the fold, `len(<node>[IDX]) == 1` holds
+    fold = [n for n in tm.cfg.nodes if n.kind == 'stmt' and isinstance(n.ast, ast.Assign) and any(
+        isinstance(t, ast.Subscript) and isinstance(t.slice, ast.Slice) and t.slice.lower is None and t.slice.upper is None and src(t.value) == tm.params[1] for t in n.ast.targets)]
+    for fn_ in fold:
+        single = False
+        others = []
+        for (e_, holds_, _t) in T.guard_atoms(tm, fn_):
+            cp_ = compare_parts(e_)
+            if cp_ and isinstance(cp_[0], ast.Call) and dotted(cp_[0].func) == 'len' and 'IDX' in src(cp_[0]) and isinstance(cp_[2], ast.Constant):
+                k_ = cp_[2].value
+                est = (cp_[1] is ast.Eq and holds_ and k_ == 1) or (cp_[1] is ast.NotEq and not holds_ and k_ == 1) or \
+                    (cp_[1] is ast.Gt and not holds_ and k_ == 1) or (cp_[1] is ast.GtE and not holds_ and k_ == 2) or (cp_[1] is ast.Lt and holds_ and k_ == 2) or \
+                    (cp_[1] is ast.LtE and holds_ and k_ == 1)
+                single = single or est
+                if not est:
+                    others.append((e_, holds_))
+        R.ob('C11.d', tm, fn_.ast, single, text=f'`{short(fn_.ast)}` only for a node with exactly one child', detail='' if single else
+             f'the node is folded into its first child although the guard only establishes {[("not " if not h_ else "") + short(e_) for e_, h_ in others] or "nothing about the number of children"}: '
+             f'with two children left after a removal the second subtree vanishes from the tree while routes / named_routes still list it (its path answers 404)',
+             why='survivors are intact after any removal', key_extra='fold-single-child')
     sites = [('prune test of remove', rm, prune[0]), ('guard of _try_merge', tm, guards[0]), ('yield test of _routes_iter', ri, ytests[0])]
     for (role, fn, n) in sites:
         have = payload_slots(n.ast) & {'DATA', 'HOOKS'}
@@ -283,6 +303,35 @@ def check(P, R):
                  f'with the old route / hook set (a hook installed afterwards does not fire, a removed one still does)',
                  why='after any edit the router answers every path like a freshly built one', key_extra=f'memo-invalidate:{attr}:{m_.name}')
     R.ob('C11.d', rs_ if rs_ is not None else rcls.fq, None, True, text=f'resolve() keeps {len(memo_attrs)} answer memo(s); {len(editors)} tree-editing methods', nontrivial=False)
+    # the hook set installed on a rule is one object, seen by the tree (which delivers it) and by the registry (which lists it): whoever updates it in place must have
+    # taken it from the tree, unless tree and registry are known to hold the very same object
+    ah_ = P.func(f'{RR}:RadiRouter.add_hook')
+    ahs = P.func(f'{RD}:RadiDict.add_hooks')
+    hp_ = ahs.params[2] if len(ahs.params) > 2 else 'hooks'
+    copies = []
+    for c_ in walk_shallow(ahs.node):
+        if isinstance(c_, ast.Call):
+            for k_ in c_.keywords:
+                if k_.arg == 'hooks':
+                    v_ = T.expand(ahs, k_.value, ahs.cfg.node_of_stmt(c_)[0], keep=(hp_,))
+                    if (isinstance(v_, ast.Call) and (dotted(v_.func) in ('list', 'tuple', 'copy.copy', 'copy.deepcopy') or call_attr(v_) == 'copy')) or \
+                            (isinstance(v_, ast.Subscript) and isinstance(v_.slice, ast.Slice)):
+                        copies.append(k_.value)
+    inst = [c_ for c_ in walk_shallow(ah_.node) if isinstance(c_, ast.Call) and (dotted(c_.func) or '').endswith('hook_installer') and c_.args]
+    for c_ in inst:
+        cn_ = ah_.cfg.node_of_stmt(c_)[0]
+        cl_ = ah_.rd.closure_nodes(c_.args[0], cn_, follow_mut=False)
+        from_tree = any(isinstance(x, ast.Call) and (dotted(x.func) or '').endswith('_match') and any(k.arg == 'get_hooks' for k in x.keywords) for x in cl_)
+        from_registry = any((isinstance(x, ast.Call) and call_attr(x) == 'get' and dotted(x.func.value) == 'self.hooks') or
+                            (isinstance(x, ast.Subscript) and dotted(x.value) == 'self.hooks') for x in cl_)
+        ok = from_tree or (from_registry and not copies)
+        if not from_tree and not from_registry:
+            R.undecided('C11.f', ah_, c_, 'add_hook', 'where the already installed hooks are taken from has no recogniser')
+            continue
+        R.ob('C11.f', ah_, c_, ok, text=f'`{short(c_, 60)}` updates the hook set the tree delivers', detail='' if ok else
+             f'the installed hooks are taken from the registry (`self.hooks`) while RadiDict.add_hooks stores a copy (`{short(copies[0])}`) in the tree: re-installing a hook on a '
+             f'rule that already has one updates the registry\'s list only - the tree keeps firing the old hook set',
+             why='a route hook that was installed fires; the router answers like one freshly built from the surviving hooks', key_extra='hook-set-one-object')
     # ---- d: pairing in RadiRouter
     check_pairing(P, R)
     # ---- e
@@ -412,3 +461,23 @@ def check_pairing(P, R):
     ok = any((isinstance(x, ast.Call) and dotted(x.func) == 'self.named_routes.pop') or (isinstance(x, ast.Delete) and 'self.named_routes[' in src(x))
              for x in ast.walk(rn.node)) and 'pattern' in src(rn.node)
     R.ob('C11.d', rn, rn.node, ok, text='_remove_named_routers pops every name whose route pattern was removed', detail='' if ok else '_remove_named_routers does not drop names by pattern')
+    # ... every name: the names are visited one by one (a route may be registered under several), not looked up through a map that keeps one name per pattern
+    pops = [x for x in ast.walk(rn.node) if (isinstance(x, ast.Call) and dotted(x.func) == 'self.named_routes.pop' and x.args) or
+            (isinstance(x, ast.Delete) and 'self.named_routes[' in src(x))]
+    for px in pops:
+        key_e = px.args[0] if isinstance(px, ast.Call) else px.targets[0].slice
+        lps = [l for l in T.loops_of(px) if isinstance(l, ast.For)]
+        per_name = False
+        for l in lps:
+            it_ = src(l.iter)
+            tg_names = {x.id for x in ast.walk(l.target) if isinstance(x, ast.Name)}
+            if 'self.named_routes' in it_ and isinstance(key_e, ast.Name) and key_e.id in tg_names:
+                per_name = True
+        by_pattern_map = [x for x in ast.walk(rn.node) if isinstance(x, ast.DictComp) and 'pattern' in src(x.key) and 'named_routes' in src(x.generators[0].iter)]
+        if not per_name and not by_pattern_map and not lps:
+            R.undecided('C11.d', rn, px, '_remove_named_routers', 'the way the names to drop are enumerated has no recogniser')
+            continue
+        R.ob('C11.d', rn, px, per_name, text=f'`{short(px)}` for every (name, route) of the name table', detail='' if per_name else
+             f'the names to drop are found through a map keyed by pattern ({short(by_pattern_map[0]) if by_pattern_map else "not by walking the name table"}), which keeps one name per '
+             f'pattern: a route registered under two names (GET as user_show, POST as user_update) keeps a dangling name after it is removed - by-name lookup returns a route that '
+             f'no longer resolves, and the name cannot be reused', why='lookups by name agree with a freshly built router', key_extra='names-one-by-one')
